@@ -77,7 +77,7 @@ def stream_cases(ctx, deep=False):
         alphabet = [(p, o) for p in (0, 1) for o in (OUTS if r <= 1 else (([-1, 0, 2, 3, 6] if not ctx.thorough else [-1, 0, 1, 2, 3, 6]) if r == 2 else [-1, 0, 1, 2, 3]))]
         for outs in itertools.product(alphabet, repeat=r + 1):
             if not any(p for p, o in outs): continue
-            for cf in (([0, 1, 2, 3] if ctx.thorough else [0, 2, 3]) if r <= 1 else [0, 2]):
+            for cf in (([0, 1, 2, 3] if ctx.thorough else [0, 2, 3]) if r <= 1 else ([0, 2] if r == 2 else [2])):
                 k += 1
                 yield {'kind': 'stream', 'sess': dict(SESS_STREAM, retry=r, rep=REPS[k % 4], flags=FLAGS[k % len(FLAGS)]),
                        'stream': [list(x) for x in outs], 'cfail': cf}
@@ -136,7 +136,7 @@ def prog_cases(ctx, deep=False):
             if c: yield c
     # depth 3: sampled (all of them in a deep search)
     d2 = inner_progs(2)
-    n = len(d2) if (deep and ctx.thorough) else ctx.scale(400, 6000)
+    n = len(d2) if (deep and ctx.thorough) else ctx.scale(400, 4000)
     rng = ctx.rng
     for _ in range(n):
         p = d2[rng.randrange(len(d2))]
